@@ -183,13 +183,15 @@ impl Check for Adversarial {
         "E2 full depth-first search: the function answers every new abscissa (memoised on its bits, so each path is a genuine continuous function through the answered points) with a value from {+-1, +-0.01} (Brent {+-1, +-0.3}; thorough adds 0), ALL answer sequences up to the method's own termination bound (Brent: up to an evaluation cap, deeper paths are truncated and only their prefix is judged); brackets in both orders, straddling zero, far from zero; the first two answers are the end points, so same-sign rejections are part of the same search; signature = (method, outcome class, number of evaluations)".into()
     }
     fn axes(&self, t: Tier) -> Value {
-        json!({"brackets": BRACKETS, "tolerance": "width/2^m", "m": t.pick(vec![3, 4, 5], vec![3, 4, 5, 6, 7]), "itp": {"k1": [0.1, 1.0], "k2": [1.5, 2.0, 2.5], "n0": [0.0, 1.0, 2.0]}, "brent_cap": t.pick(10, 13)})
+        json!({"brackets": BRACKETS, "tolerance": "width/2^m", "m": t.pick(vec![0, 1, 3, 4, 5], vec![0, 1, 2, 3, 4, 5, 6, 7]), "itp": {"k1": [0.1, 1.0], "k2": [1.5, 2.0, 2.5], "n0": [0.0, 1.0, 2.0]}, "brent_cap": t.pick(10, 13)})
     }
     fn points(&self, t: Tier) -> Vec<AdvPt> {
         let mut v = vec![];
         let d = ItpParams { k1: 0.1, k2: 2.0, n0: 1.0 };
         for &bracket in &BRACKETS {
-            for &m in &t.pick(vec![3u32, 4, 5], vec![3, 4, 5, 6, 7]) {
+            // (m = 0, 1: a tolerance as large as the bracket itself or half of it - nothing to iterate, but the end points
+            // must still be evaluated and same-sign ends rejected)
+            for &m in &t.pick(vec![0u32, 1, 3, 4, 5], vec![0, 1, 2, 3, 4, 5, 6, 7]) {
                 for with_zero in t.pick(vec![false], vec![false, true]) {
                     if with_zero && m > 4 {
                         continue;
